@@ -375,6 +375,11 @@ func hasEqFact(b *ssa.BasicBlock, polarity bool, a eqAtom) bool {
 		cond, neg := an.Not(f.Cond)
 		match, negated := a(cond)
 		if !match {
+			// a test of a classifier's result: `kindOf(r) == kindUnbind` implies what every return of kindOf
+			// with that value was control-dependent on
+			if pol, known := classImplies(cond, f.True != neg, a); known && pol == polarity {
+				return true
+			}
 			continue
 		}
 		if (f.True != neg) != negated == polarity {
@@ -395,9 +400,123 @@ func ifsOnEq(fn *ssa.Function, a eqAtom) []condIf {
 		cond, neg := an.Not(iff.Cond)
 		if match, negated := a(cond); match {
 			out = append(out, condIf{iff, neg != negated})
+			return
+		}
+		// a classifier test that is equivalent to the atom (true => atom has polarity p, false => the opposite)
+		pt, kt := classImplies(cond, true, a)
+		pf, kf := classImplies(cond, false, a)
+		if kt && kf && pt != pf {
+			out = append(out, condIf{iff, neg != !pt})
 		}
 	})
 	return out
+}
+
+// classifierCall: cond is `K(args...) == k` / `!= k` for a module function K
+// all of whose returns yield integer constants; returns the call, k and
+// whether the comparison is !=.
+func classifierCall(cond ssa.Value) (*ssa.Call, int64, bool, bool) {
+	bo, ok := cond.(*ssa.BinOp)
+	if !ok || (bo.Op != token.EQL && bo.Op != token.NEQ) {
+		return nil, 0, false, false
+	}
+	x, kc := bo.X, bo.Y
+	if _, isK := an.IntConst(x); isK {
+		x, kc = bo.Y, bo.X
+	}
+	k, isK := an.IntConst(kc)
+	call, isCall := an.Strip(x).(*ssa.Call)
+	if !isK || !isCall {
+		return nil, 0, false, false
+	}
+	K := an.StaticCallee(call.Common())
+	if K == nil || !an.InModule(K) || len(K.Blocks) == 0 {
+		return nil, 0, false, false
+	}
+	for _, ret := range an.Returns(K) {
+		res := an.ReturnResults(ret)
+		if len(res) != 1 {
+			return nil, 0, false, false
+		}
+		if _, isC := an.IntConst(res[0]); !isC {
+			return nil, 0, false, false
+		}
+	}
+	// a pure classification: no stores, no calls
+	pure := true
+	an.Instrs(K, func(in ssa.Instruction) {
+		switch in.(type) {
+		case *ssa.Store, ssa.CallInstruction:
+			pure = false
+		}
+	})
+	if !pure {
+		return nil, 0, false, false
+	}
+	return call, k, bo.Op == token.NEQ, true
+}
+
+// classImplies: the classifier test cond having the value truth implies that
+// the atom has polarity pol (every return of the classifier the test selects
+// is control-dependent on the atom with that polarity).
+func classImplies(cond ssa.Value, truth bool, a eqAtom) (pol bool, known bool) {
+	call, k, neq, ok := classifierCall(cond)
+	if !ok {
+		return false, false
+	}
+	K := an.StaticCallee(call.Common())
+	wantEq := truth != neq // the classifier's result equals k
+	n := 0
+	for _, ret := range an.Returns(K) {
+		v, _ := an.IntConst(an.ReturnResults(ret)[0])
+		if (v == k) != wantEq {
+			continue
+		}
+		found := false
+		for _, f := range an.BranchFacts(ret.Block()) {
+			c2, neg := an.Not(f.Cond)
+			if match, negated := a(c2); match {
+				p := (f.True != neg) != negated
+				if n > 0 && p != pol {
+					return false, false
+				}
+				pol, found = p, true
+				break
+			}
+		}
+		if !found {
+			return false, false
+		}
+		n++
+	}
+	return pol, n > 0
+}
+
+// atomBase: the struct value whose field the (negation-stripped) condition
+// tests: the base of a `x.field ⋈ const` comparison or of a table lookup
+// indexed by it, or the argument a classifier test passes for that struct.
+func atomBase(cond ssa.Value, pkg, typ, field string) ssa.Value {
+	if call, _, _, ok := classifierCall(cond); ok {
+		for _, a := range call.Common().Args {
+			if an.TypeIs(a.Type(), pkg, typ) {
+				return a
+			}
+		}
+		return nil
+	}
+	var operands []ssa.Value
+	switch x := cond.(type) {
+	case *ssa.BinOp:
+		operands = []ssa.Value{x.X, x.Y}
+	case *ssa.Lookup:
+		operands = []ssa.Value{x.Index}
+	}
+	for _, o := range operands {
+		if b, ok := fieldLoad(o, pkg, typ, field); ok {
+			return b
+		}
+	}
+	return nil
 }
 
 // hasFact reports whether the block is control-dependent (through
